@@ -108,7 +108,7 @@ def _rand_amount(rnd):
 def cases(tier, seed):
     rnd = random.Random(seed * 1000003 + 20)
     big = tier == "thorough"
-    n = 10 if big else 1
+    n = 50 if big else 3
     out = []
     rtod = lambda: rnd.choice(B_TOD) if rnd.random() < 0.3 else rnd.randrange(0, DAY)
     amounts = _amount_boundaries()
